@@ -87,8 +87,10 @@ WCond(x)  == {NCond(x, a, b) : a \in {NVar("n1"), NVar("s"), NNull, NVar("t")}, 
              \cup {NCond(c, x, b) : c \in {NVar("b"), NBool(FALSE), NVar("nul"), NVar("s")}, b \in {NVar("n1"), NVar("s"), NNull, NVar("zz"), NVar("t"), NVar("o")}}
              \cup {NCond(c, a, x) : c \in {NVar("b"), NBool(FALSE), NVar("sn")}, a \in {NVar("n1"), NVar("s"), NNull, NVar("zz"), NVar("l")}}
              \* arms of the same shape whose NESTED types differ (the mismatch is described element by element)
-             \cup {NCond(NVar("b"), x, NTuple(<<NVar("o")>>)), NCond(NVar("b"), NTuple(<<NVar("o")>>), x),
-                   NCond(NVar("b"), x, NObject(<<NKeyId("a"), NVar("o")>>))}
+             \* (an object with a tuple-typed attribute unifies with no other object or map type)
+             \cup {NCond(NVar("b"), x, NTuple(<<NObject(<<NKeyId("a"), NTuple(<<>>)>>)>>)),
+                   NCond(NVar("b"), NTuple(<<NObject(<<NKeyId("a"), NTuple(<<>>)>>)>>), x),
+                   NCond(NVar("b"), x, NObject(<<NKeyId("a"), NObject(<<NKeyId("a"), NTuple(<<>>)>>)>>))}
 WParen(x) == {NParen(x)}
 WTuple(x) == {NTuple(<<x>>), NTuple(<<x, NVar("s")>>), NTuple(<<NVar("n1"), x>>), NTuple(<<>>)}
 WObject(x) ==
